@@ -543,7 +543,9 @@ func (p *connectedPlayer) getVirtualHostname() string {
 	// 1. Clear virtual host (removes forge separators, TCPShield separators, etc.)
 	// 2. Extract hostname (removes port)
 	// 3. Convert to lowercase for consistent matching
-	virtualHostStr := p.virtualHost.String()
+	// netutil.Host (not String()): a virtual host taken from a handshake keeps host and port apart, so the port is
+	// removed exactly even when the host itself contains colons (IPv6 literal, TCPShield real-ip suffix).
+	virtualHostStr := netutil.Host(p.virtualHost)
 	cleanedHost := lite.ClearVirtualHost(virtualHostStr)
 	hostname := netutil.HostStr(cleanedHost)
 
